@@ -18,7 +18,8 @@ REQUIRED_REACH = {'quick': ['ok:completed-with-pages', 'dev:busy-poll'], 'thorou
 EXPECTED_REACH = ['path:started-in-error', 'sched:zero-busy-polls', 'sched:three-or-more-busy-polls', 'timeout:byte0',
                   'timeout:byte1', 'timeout:byte2', 'len:zero', 'len:full-flash', 'variant:B', 'variant:8', 'variant:6',
                   'variant:4', 'dev:clrstatus', 'timeout:on-nonbusy-reply', 'fault:usberror', 'fault:short']
-CHUNK = 200
+CHUNK = 60
+CHUNK_CAP_S = 1500
 
 parent_init = dfusim.parent_init
 parent_fini = dfusim.parent_fini
@@ -53,7 +54,7 @@ def make_scenario(spec, seed, idx):
         return {'config': 'fault-free', 'variant': spec['v'], 'pad': '3CJ',
                 'fw': {'len': spec['len'], 'kind': 'random', 'seed': r.randrange(1 << 30)},
                 'init': {'kind': r.choice(('ff', 'random', 'zeros')), 'seed': r.randrange(1 << 30)},
-                'start_error': 0, 'sched': dfusim.canonical_sched(spec['s']), 'knobs': {}}
+                'start_error': 0, 'sched': dfusim.canonical_sched(spec['s'], dfusim.ops_expected(spec['len'])), 'knobs': {}}
     variant = r.choice('B864')
     n = dfusim.draw_length(r, variant)
     knobs = {}
@@ -68,7 +69,7 @@ def make_scenario(spec, seed, idx):
         knobs['container'] = 'bytes'
     scen = {'config': 'fault-free', 'variant': variant,
             'pad': r.choice(('3CJ', 'ABZ', '00Q9', 'zz7', 'GDX1YZ')),
-            'fw': {'len': n, 'kind': r.choice(('random', 'random', 'mixed', 'zeros', 'ff')), 'seed': r.randrange(1 << 30)},
+            'fw': {'len': n, 'kind': r.choice(('random', 'random', 'random', 'mixed', 'zeros', 'ff', 'suffix')), 'seed': r.randrange(1 << 30)},
             'init': {'kind': r.choice(('ff', 'random', 'old', 'zeros')), 'seed': r.randrange(1 << 30)},
             'start_error': r.choice((0, 0, 0, r.randint(1, 15))),
             'sched': dfusim.draw_sched(r, dfusim.ops_expected(n), knobs), 'knobs': knobs}
